@@ -2442,6 +2442,15 @@ class Binop(Elemwise):
 
     def _simplify_up(self, parent, dependents):
         if isinstance(parent, Projection):
+            if self.ndim > 1 and any(
+                isinstance(op, Expr) and op.ndim == 1
+                for op in (self.left, self.right)
+            ):
+                # frame <op> series aligns the series with the columns (e.g.
+                # ``df - df.sum()``). The series carries all column labels, so
+                # narrowing only the frame would make pandas align the other
+                # labels back in as all-NaN columns.
+                return
             changed = False
             columns = determine_column_projection(self, parent, dependents)
             columns = _convert_to_list(columns)
